@@ -27,6 +27,8 @@ BASIS = ["rbf", "matern_ard", "scale_rbf", "sum_ad", "prod", "periodic", "multit
 DISCRETE = ("indexk", "hamming")
 TRIPLES = [((), (), ()), ((2,), (2,), (2,)), ((), (2,), (2,)), ((2,), (), ()), ((), (2,), ()), ((2,), (1,), (2,)), ((2, 1), (1, 3), (2, 3)),
            ((), (1, 3), (2, 1)), ((3,), (2, 3), (3,)), ((2,), (2,), ()),
+           ((2,), (1, 2), (1, 2)),   # the data carry an extra leading batch dimension of size one: the broadcast batch shape (1, 2) has as
+           # many ELEMENTS as the kernel's own (2,) but is a different shape (wave 13: an `expand_batch` shortcut on numel())
            ((3,), (), ())]   # as many kernel batch members as points (n1 = 3): a b x n table of diagonals has the shape of an n x n matrix
 D = 3
 
@@ -310,6 +312,24 @@ def relations(cell, k, x1, x2, dense, fails, feats, seed):
                     with S.lazily_evaluate_kernels(False):
                         got = sub(x1b[sel], x2b[sel]).to_dense()
                     fails.check_close("kernel-getitem", got, dense[sel], 1e-12, 1e-12, f"kernel[{bi}](x1[{bi}], x2[{bi}]) != kernel(x1,x2)[{bi}]")
+                    ops += 1
+            # expand_batch of a kernel that already has a batch shape: a leading dimension of size one / of size three in front of it
+            for lead_dims in ((1,), (3,)):
+                tgt = torch.Size(lead_dims + kb)
+                try:
+                    Bt = torch.broadcast_shapes(tgt, dense.shape[:-2])
+                except RuntimeError:
+                    continue   # the data's own batch shape does not broadcast with this target
+                with fails.guard("expand_batch"):
+                    ke = k.expand_batch(tgt)
+                    if tuple(ke.batch_shape) != tuple(tgt):
+                        fails.add("expand_batch", f"expand_batch({tuple(tgt)}) of a kernel with batch shape {kb} has batch_shape {tuple(ke.batch_shape)}")
+                    # the derivative kernels take the batch shape from the data alone (known finding of C08): give them data of the full shape
+                    xe1, xe2 = (x1.expand(*Bt, *x1.shape[-2:]), x2.expand(*Bt, *x2.shape[-2:])) if cell["kernel"].startswith("rbfgrad") else (x1, x2)
+                    with S.lazily_evaluate_kernels(False):
+                        got = ke(xe1, xe2).to_dense()
+                    want = dense.expand(*Bt, *dense.shape[-2:])
+                    fails.check_close("expand_batch", got, want, 1e-12, 1e-12, f"expand_batch({tuple(tgt)}) of a batched kernel must behave as copies of it")
                     ops += 1
         else:
             with fails.guard("expand_batch"):
